@@ -136,6 +136,50 @@ func runC19(c *Ctx) {
 		for _, site := range s.Find(f, "call:(*Conn).handle") {
 			c.obUnreach("dispatch", site, `(*Conn).readLine(param1)#1 != nil`)
 		}
+		// the loop recognises the refusal by IDENTITY (err == ErrTooLongLine): what the read path hands up must then be
+		// the sentinel itself. A wrapped or re-created error ("%w (… octets withheld)") falls through to the generic
+		// branch: 421 "connection error" instead of the 500 the property asks for
+		byIdentity := false
+		allInstrs(f, func(in ssa.Instruction) {
+			if bo, ok := in.(*ssa.BinOp); ok && (bo.Op == token.EQL || bo.Op == token.NEQ) && (describe(bo.X) == "ErrTooLongLine" || describe(bo.Y) == "ErrTooLongLine") {
+				byIdentity = true
+			}
+		})
+		if byIdentity {
+			for _, fn := range []string{"(*Conn).readLine", "(*lineLimitReader).Read"} {
+				g := c.A.Func(fn)
+				if g == nil {
+					continue
+				}
+				allInstrs(g, func(in ssa.Instruction) {
+					r, ok := in.(*ssa.Return)
+					if !ok || in.Block() == g.Recover {
+						return
+					}
+					rv := returnedValues(r)
+					if len(rv) == 0 {
+						return
+					}
+					leaves := leafSources(rv[len(rv)-1])
+					for _, l := range leaves {
+						if strings.Contains(l, "ErrTooLongLine") && l != "ErrTooLongLine" {
+							R.Ob(c.siteKey(in, "too-long-line refusal is the sentinel itself"), c.P.InstrPos(in), false, fn+" returns "+l+": handleConn compares with == ErrTooLongLine, so this refusal is not recognised and is answered 421 (and logged as a connection error) instead of 500")
+						}
+					}
+					// where the limiter is known to have been exceeded, the refusal handed up IS the sentinel
+					exceeded := false
+					for a := range c.F.Analyze(g).At(in) {
+						if strings.Contains(a, "exceeded(") && strings.HasSuffix(a, "== true") {
+							exceeded = true
+						}
+					}
+					if exceeded {
+						R.Ob(c.siteKey(in, "refusal of a partial over-long line is the sentinel itself"), c.P.InstrPos(in), len(leaves) == 1 && leaves[0] == "ErrTooLongLine", fmt.Sprintf("%s returns %v where the limiter was exceeded: handleConn compares with == ErrTooLongLine, so this refusal is answered 421 instead of 500", fn, leaves))
+					}
+				})
+			}
+		}
+		R.Ob("(*Server).handleConn/recognises ErrTooLongLine", c.P.Pos(f.Pos()), byIdentity || s.May(f)["call:errors.Is"], "the command loop neither compares the read error with ErrTooLongLine nor uses errors.Is")
 		// ... and the loop ends there: the limiter's refusal is sticky, so reading again would answer 500 forever
 		c.obNever("no further read after the 500 for a too long line", f, c.direct("reply:500"), lineReads, nil, nil)
 	}
